@@ -92,7 +92,7 @@ def run(ctx):
                     for argname, base_arg in (("ujk", u), ("coloring", c), ("J", J)):
                         if base_arg is None:
                             continue
-                        for lab, av in variants.of_array(base_arg):
+                        for lab, av in variants.of_array(base_arg, floats=(argname != "coloring")):
                             keep = np.array(av).copy()
                             args = dict(ujk=u, coloring=c, J=J); args[argname] = av
                             try:
@@ -204,6 +204,8 @@ def run(ctx):
                     rep(f"bisection along the perfect-matching colour {along} leaves {bad} of {len(be)} dimers inside one half"); continue
                 ctx.count("bisections_along_perfect_matching")
             ctx.case((tag,), nontrivial=True)
+    core.history_check(ctx, "import numpy as np\nfrom koala import example_graphs as eg, voronization as vz, graph_utils as gu, quasicrystals as qc, phase_diagrams as pdg, hamiltonian as ham\nfrom koala.flux_finder import flux_finder as ff\n\ndef _canon(l):\n    parts = [l.vertices.positions.ravel(), l.edges.indices.ravel().astype(float), l.edges.crossing.ravel().astype(float)]\n    return np.concatenate(parts)\ndef _plaq(l):\n    out = []\n    for p in l.plaquettes:\n        out += [float(len(p.edges))] + [float(x) for x in p.edges] + [float(x) for x in p.directions] + [float(x) for x in p.vertices] + [float(x) for x in p.center]\n    return np.array(out)\n_pts = np.random.default_rng(123).uniform(size=(14, 2))\n", ["ham.majorana_hamiltonian(vz.generate_lattice(_pts), None, 1 - 2 * (np.arange(42) % 3 == 0), np.array([1.0, 0.5, 0.25]))",
+                                      "_canon(ham.bisect_lattice(*eg.honeycomb_lattice(3, return_coloring=True), 1))"], label="Hamiltonian call")
     outs = core.Driver().run_parallel(reqs)
     for (tag, l, H, gauged), o in zip(meta, outs):
         brk = lambda what: ctx.corr_break(f"{tag}: {what}", dict(case=tag, lattice=zoo.lat_to_json(l)))
